@@ -45,15 +45,46 @@ def r1(R):
                     continue
                 g, b, F = R.cfg(f, cls, max_depth=0)
 
-                def edge(node, st, lab, tgt, F=F):
-                    return max(0, st + lock_delta(F, node))
+                def reads_counter(node):
+                    if node.ast is None:
+                        return False
+                    if isinstance(node.ast, ast.AugAssign) and dotted(
+                            node.ast.target) == ('self', '_oid'):
+                        return True
+                    return any(isinstance(x, ast.Attribute) and
+                               isinstance(x.ctx, ast.Load) and
+                               dotted(x) == ('self', '_oid')
+                               for x in ast.walk(node.ast))
 
-                def at(node, st, F=F, f=f, cls=cls):
+                def edge(node, st, lab, tgt, F=F,
+                         reads_counter=reads_counter):
+                    held, read = st
+                    h2 = max(0, held + lock_delta(F, node))
+                    if h2 == 0:
+                        read = False       # the hold ended
+                    elif reads_counter(node):
+                        read = True
+                    return (h2, read)
+
+                def at(node, st, F=F, f=f, cls=cls,
+                       reads_counter=reads_counter):
+                    state = st
+                    st, read = state
                     for op in F.ops(node):
                         if op.kind in ('store', 'aug') and \
                                 is_self_oid(op.path):
                             if f.name == '__init__':
                                 continue
+                            if st > 0 and not (read or reads_counter(node)):
+                                return Violation(
+                                    '%s.%s writes the id counter under the '
+                                    'storage lock, but the value it is '
+                                    'compared with / derived from was read '
+                                    'before the lock was taken: between the '
+                                    'check and the write another thread can '
+                                    'move the counter, which is then set '
+                                    'back and ids are issued twice' % (
+                                        cls.name, f.name))
                             if st == 0:
                                 return Violation(
                                     '%s.%s writes the id counter without '
@@ -68,9 +99,9 @@ def r1(R):
                                     '(set_max_oid / max()) may, otherwise '
                                     'the counter can move backwards and ids '
                                     'are issued twice' % (cls.name, f.name))
-                    return st
+                    return state
 
-                vs, stats = explore(g, 0, at=at, edge=edge)
+                vs, stats = explore(g, (0, False), at=at, edge=edge)
                 R.count(stats)
                 for op in F.all_ops():
                     if op.kind in ('store', 'aug') and is_self_oid(op.path):
@@ -283,6 +314,34 @@ def r4(R):
     R.count(stats)
     for v in vs:
         R.violation(v.node, v.message, g, v.path)
+    # ids are forgotten only when the objects stored under them committed
+    for m in cls.methods.values():
+        for c in walk_local(m.node):
+            shrink = None
+            if isinstance(c, ast.Call) and isinstance(
+                    c.func, ast.Attribute) and dotted(c.func.value) == (
+                        'self', '_issued_oids') and c.func.attr in (
+                            'difference_update', 'discard', 'remove', 'clear',
+                            'pop', 'intersection_update',
+                            'symmetric_difference_update'):
+                shrink = c
+            if isinstance(c, ast.Assign) and any(
+                    dotted(t) == ('self', '_issued_oids') for t in c.targets
+                    if isinstance(t, ast.Attribute)) and \
+                    m.name != '__init__':
+                shrink = c
+            if shrink is not None:
+                R.instance('DemoStorage.%s shrinks the issued set' % m.name)
+                if m.name != 'tpc_finish':
+                    R.violation((m.module.relpath, m.qualname,
+                                 ' '.join(ast.unparse(shrink).split())[:80],
+                                 shrink.lineno),
+                                'DemoStorage.%s removes ids from the set of '
+                                'issued ids: only a finished commit makes '
+                                'them findable in the storage; after an '
+                                'abort the issued set is all that keeps a '
+                                'random re-draw from handing the same id '
+                                'out again' % m.name)
 
 
 OID_ASSIGN_MODULES = ('ZODB.Connection', 'ZODB.serialize', 'ZODB.ExportImport')
